@@ -495,6 +495,32 @@ def run(rep, tier, seed):
         except Exception as e:  # noqa: BLE001
             rep.violation("idempotence-raises:" + type(e).__name__, "property-violated", {"hint": h, "error": repr(e)})
 
+    # directed: union members of one origin that differ only in an argument that is not a type (the Ellipsis of a
+    # variable-length tuple, the members of a nested Literal), written in both orders and under Optional / List
+    def lit(x):
+        return ("HLit", [("LStr", x)])
+    same_origin = [
+        [("HTupleFix", [("HCls", 0)]), ("HTupleVar", ("HCls", 0))],
+        [("HTupleFix", [("HCls", 1), ("HCls", 1)]), ("HTupleVar", ("HCls", 1))],
+        [("HGen", 10, [lit("a")]), ("HGen", 10, [lit("1")])],
+        [("HGen", 12, [("HLit", [("LInt", 0)])]), ("HGen", 12, [("HLit", [("LBool", False)])])],
+        [("HGen", 11, [("HCls", 1), lit("a")]), ("HGen", 11, [("HCls", 1), lit("")])],
+        [("HTupleFix", []), ("HTupleVar", ("HAny",))],
+    ]
+    for ms in same_origin:
+        for wrap in (lambda u: u, lambda u: ("HOpt", u), lambda u: ("HGen", 10, [u]), lambda u: ("HUnion", [u, ("HCls", 3)])):
+            h1, h2 = wrap(("HUnion", list(ms))), wrap(("HUnion", list(reversed(ms))))
+            pres_checked += 1
+            try:
+                a, b = nf(h1), nf(h2)
+            except Exception as e:  # noqa: BLE001
+                rep.violation("directed-reorder-raises:" + type(e).__name__, "property-violated", {"hint": h1, "error": repr(e)})
+                continue
+            if not (a == b and hash(a) == hash(b) and show_norm_py(w, a) == show_norm_py(w, b)):
+                rep.violation(sig_pair("preserving", h1, h2), "property-violated",
+                              {"what": "re-ordering union members of one origin (they differ in a non-type argument only) changes the "
+                                       "normal form", "hint": h1, "rewritten": h2, "norm": show_norm_py(w, a),
+                               "norm_rewritten": show_norm_py(w, b), "equal": a == b, "hash_equal": hash(a) == hash(b)})
     seen = set()
     for idx, got in bad:
         h = hints[idx]
